@@ -9,24 +9,34 @@ def parseRow (s : String) : Option Row :=
       | _, _ => none
     | _ => none) s
 
-/-- ops:
+/-- ops (stateful: the database of the query-level part, as for C22):
+  reset | table <id> <cols> <row>* → ok ;  eval <query tokens> → canonical result
   pack <value>                  → x<hex>                       (`core.Pack`)
   ev <flds> <row> <expr tokens> → <language value> <engine value> <canEvalRaw t|f>
   rawcmp <v1> <v2>              → -1|0|1 -1|0|1                (encodings, language)
 -/
-def step (l : List String) : String :=
+def step (db : Db) (l : List String) : Db × String :=
   match l with
+  | ["reset"] => ([], "ok")
+  | "table" :: id :: cols :: rows =>
+    match parseNat id, parseTable cols rows with
+    | some id, some t => (setTable db id t, "ok")
+    | _, _ => (db, "bad-op")
+  | "eval" :: toks =>
+    match parseQuery (toks.length + 1) toks with
+    | some (q, []) => (db, showResult (colsQ db q) (evalQ db q))
+    | _ => (db, "bad-op")
   | ["pack", v] => match parseVal v with
-    | some v => showBytes (pack v)
-    | none => "bad-op"
+    | some v => (db, showBytes (pack v))
+    | none => (db, "bad-op")
   | ["rawcmp", a, b] => match parseVal a, parseVal b with
-    | some a, some b => showOrd (rawCmp a b) ++ " " ++ showOrd (Gsu.QVal.compare a b)
-    | _, _ => "bad-op"
+    | some a, some b => (db, showOrd (rawCmp a b) ++ " " ++ showOrd (Gsu.QVal.compare a b))
+    | _, _ => (db, "bad-op")
   | "ev" :: flds :: row :: toks =>
     match parseCols flds, parseRow row, parseExpr (toks.length + 1) toks with
     | some flds, some r, some (e, []) =>
-      showVal (eval r e) ++ " " ++ showVal (evalX flds r e) ++ " " ++ showBool (canRaw flds e)
-    | _, _, _ => "bad-op"
-  | _ => "bad-op"
+      (db, showVal (eval r e) ++ " " ++ showVal (evalX flds r e) ++ " " ++ showBool (canRaw flds e))
+    | _, _, _ => (db, "bad-op")
+  | _ => (db, "bad-op")
 
-def main : IO Unit := run step
+def main : IO Unit := runS ([] : Db) step
